@@ -167,7 +167,8 @@ partial def loop (h : IO.FS.Stream) (d : Drv) (pendingOp : Option (List String))
         let (st', r) := stepAny d.st p.call
         let ctxStr := callCtx d.st p.call
         -- C10: the reference implementations recompute every completed cryptographic operation
-        let (mon', fin) := Shm.CryptoMon.step d.st d.mon op res
+        -- (for C_GenerateKeyPair the monitor notes which public key belongs to which private key: the two objects exist in the state AFTER the call)
+        let (mon', fin) := Shm.CryptoMon.step (if op.headD "" == "genpair" then st' else d.st) d.mon op res
         match fin with
         | some (some why, cls) => IO.println s!"MISMATCH line {d.lineNo} cat=crypto op={op.headD "?"} :: {" ".intercalate op} => {" ".intercalate res} :: {why} :: ctx cls={cls} modelrv={r.rv}"
         | some (none, cls) => IO.println s!"ok ref:{cls}"
